@@ -146,7 +146,13 @@ impl OutputFormat for TundraDraw {
         result.layers[0].lines.clear();
         result.is_terminal_buffer = false;
         result.file_name = Some(file_name.into());
+        // Tundra keeps its width nowhere but in the SAUCE record (a 16 bit field): set_sauce's 1000 column sanity limit must not apply
+        let sauce_width = sauce_opt.as_ref().map_or(0, |sauce| sauce.buffer_size.width);
         result.set_sauce(sauce_opt, true);
+        if sauce_width > 1000 {
+            result.set_width(sauce_width);
+            result.layers[0].set_width(sauce_width);
+        }
         if data.len() < 1 + TUNDRA_HEADER.len() {
             return Err(LoadingError::FileTooShort.into());
         }
